@@ -16,7 +16,7 @@ def _sig(f):
     d = f.get("detail", "")
     if kind.startswith("panic"):
         # panic message + source location, seed independent
-        return f"C16|{kind}|{d[-160:]}"
+        return f"C16|{kind}|{d.replace(C.REPO.rstrip('/') + '/', '')[-160:]}"
     if kind == "nondeterministic":
         return f"C16|nondeterministic|{f['entry']}"
     return f"C16|{kind}|{d[:80]}"
